@@ -1,6 +1,7 @@
 #![allow(dead_code, unused_imports, unused_variables)]
 mod alloc;
 mod ctx;
+mod decls;
 mod gen;
 mod docs;
 mod obs;
@@ -25,6 +26,7 @@ mod c14;
 mod c15;
 mod c16;
 mod c17;
+mod c18;
 mod c19;
 mod c20;
 
@@ -33,7 +35,7 @@ use ctx::{Ctx, Mode, Tier};
 #[global_allocator]
 static GLOBAL: alloc::Counting = alloc::Counting;
 
-const PROPS: &[&str] = &["C01", "C02", "C03", "C04", "C05", "C06", "C07", "C08", "C09", "C10", "C11", "C12", "C13", "C14", "C15", "C16", "C17", "C19", "C20"];
+const PROPS: &[&str] = &["C01", "C02", "C03", "C04", "C05", "C06", "C07", "C08", "C09", "C10", "C11", "C12", "C13", "C14", "C15", "C16", "C17", "C18", "C19", "C20"];
 
 fn run_check(ctx: &mut Ctx) {
     match ctx.prop.as_str() {
@@ -54,6 +56,7 @@ fn run_check(ctx: &mut Ctx) {
         "C15" => c15::run(ctx),
         "C16" => c16::run(ctx),
         "C17" => c17::run(ctx),
+        "C18" => c18::run(ctx),
         "C19" => c19::run(ctx),
         "C20" => c20::run(ctx),
         p => panic!("machinery: unknown property {}", p),
@@ -80,6 +83,14 @@ fn main() {
                 g.run(&mut |s| { c += 1; masters += s.iter().filter(|x| rs.ty(x.1) == Some(spec::Ty::Master)).count() as u64; true });
                 println!("N={} {}: forests={} avg masters={:.2}", n, name, c, masters as f64 / c as f64);
             }
+        }
+        return;
+    }
+    if args[1] == "gen-c18" {
+        let quick = args[2] == "quick";
+        if let Err(e) = c18::generate(quick) {
+            eprintln!("gen-c18 failed: {}", e);
+            std::process::exit(2);
         }
         return;
     }
